@@ -28,7 +28,8 @@ REQUIRED_COUNTERS = ['files_analysable', 'files_not_analysable',
                      'idempotence_checked', 'diff_encoding:utf-16',
                      'diff_encoding:cp037', 'diff_encoding:none']
 ASSUMPTIONS = [
-    'pre-existing stats values are dictionaries with integer figures',
+    'pre-existing stats values are dictionaries with numeric figures '
+    '(integers, or floats that are exact binary fractions)',
     'with implicit line endings the first line of the diff decides (spec)',
 ]
 
@@ -118,9 +119,14 @@ def gen_file_spec(rng):
 
 def gen_prestats(rng):
     st = {}
+    # figures as JSON carries them: integers, but also 4.0 / 1e1 / 2.5
+    # (binary fractions only, so that no summation order can matter)
+    floaty = rng.random() < 0.2
     for k in STAT_KEYS + ('files', 'changes'):
         if rng.random() < 0.5:
             st[k] = rng.randint(0, 50)
+            if floaty and rng.random() < 0.6:
+                st[k] = float(st[k]) + rng.choice([0.0, 0.0, 0.5, 0.25])
     if rng.random() < 0.6:
         st['custom figure'] = rng.randint(0, 9)
     if rng.random() < 0.2:
